@@ -52,7 +52,7 @@ def _clone(nodes):
 
 STRUCT_KINDS = ['delete', 'dup', 'swap', 'insert-crit', 'insert-noncrit', 'retype', 'grow', 'shrink', 'empty',
                 'append-inside']
-BYTE_KINDS = ['sub', 'trunc', 'len-raw', 'append-raw', 'insert-byte', 'delete-byte', 'num-wide']
+BYTE_KINDS = ['sub', 'trunc', 'len-raw', 'append-raw', 'insert-byte', 'delete-byte', 'num-wide', 'len-raw-chain']
 
 
 def mutation_spec(kinds=None):
@@ -131,6 +131,24 @@ def apply(wire: bytes, m, regions=None):
             else:
                 new = b'\xfe' + cur.to_bytes(4, 'big') if cur < 2 ** 32 else b'\xff' + cur.to_bytes(8, 'big')
             return _splice_fixing_ancestors(wire, 0, len(wire), a, b, new)
+        if k == 'len-raw-chain':
+            # COUPLED length edits: an element and the chain of its last descendants all claim n octets more, nothing above them
+            # is told - each of them still 'ends where its last child ends', but the outermost of them overruns ITS parent
+            try:
+                chains = _last_chains(wire)
+            except T.Malformed:
+                return None
+            chains = [c for c in chains if len(c) >= 2]
+            if not chains:
+                return None
+            ch = chains[m['pos'] % len(chains)]
+            ch = ch[:2 + m['val'] % 2] if len(ch) > 2 else ch
+            out = bytearray(wire)
+            for o in ch:
+                if out[o] + m['n'] >= 0xFD:
+                    return None
+                out[o] += m['n']
+            return bytes(out)
         if k == 'len-raw':
             # +-n on one element's length byte without re-fixing anything else
             try:
@@ -220,6 +238,35 @@ def _type_offsets(wire, start=0, end=None, depth=0):
         if typ in CONTAINERS and depth < 6:
             try:
                 out.extend(_type_offsets(wire, vs, ve, depth + 1))
+            except T.Malformed:
+                pass
+    return out
+
+
+def _last_chains(wire, start=0, end=None, depth=0):
+    """For every element: [offset of its length octet, of its last child's, of that one's last child's, ...] (single-octet
+    lengths only; children are looked for in containers and - one level - in name components)."""
+    if end is None:
+        end = len(wire)
+    out = []
+    for typ, tl, vs, ve, _m in T.walk(wire, start, end):
+        chain = [tl + T.num_size(typ)]
+        t_, vs_, ve_ = typ, vs, ve
+        for _ in range(4):
+            if t_ not in CONTAINERS or ve_ <= vs_:
+                break
+            try:
+                kids = T.walk(wire, vs_, ve_)
+            except T.Malformed:
+                break
+            if not kids:
+                break
+            t_, tl_, vs_, ve_, _mm = kids[-1]
+            chain.append(tl_ + T.num_size(t_))
+        out.append(chain)
+        if typ in CONTAINERS and depth < 6:
+            try:
+                out.extend(_last_chains(wire, vs, ve, depth + 1))
             except T.Malformed:
                 pass
     return out
